@@ -31,7 +31,7 @@ fn families(t: Tier) -> Vec<(&'static str, u64)> {
     vec![("subsets", t.n(126 * 40, 126 * 10_000)), ("passes", t.n(3_000, 500_000))]
 }
 fn floors(_t: Tier) -> Vec<(&'static str, u64)> {
-    vec![("evaluations", 6_000), ("updates", 8_000), ("parameters_checked_updated", 15_000), ("parameters_checked_frozen", 10_000)]
+    vec![("evaluations", 6_000), ("updates", 8_000), ("parameters_checked_updated", 15_000), ("parameters_checked_frozen", 10_000), ("stale_graph_passes_after_update", 600), ("fresh_graph_passes_after_update", 300)]
 }
 
 struct Param {
@@ -228,6 +228,7 @@ pub fn run_case(ctx: &mut Ctx, fam: &str, k: u64, r: &mut Rng) {
         let keep_graph = r.chance(1, 2);
         let keep_grads = r.chance(1, 2);
         let mut kept: Vec<Array> = vec![];
+        let mut graph_kept = false;
         let built = guard(|| {
             let mut acc: Option<Array> = None;
             for (p, u) in ps.iter().zip(&used) {
@@ -254,6 +255,7 @@ pub fn run_case(ctx: &mut Ctx, fam: &str, k: u64, r: &mut Rng) {
                 }
                 if keep_graph {
                     kept.push(root);
+                    graph_kept = true;
                 }
             }
         });
@@ -263,7 +265,57 @@ pub fn run_case(ctx: &mut Ctx, fam: &str, k: u64, r: &mut Rng) {
             return;
         }
         let mut params: Vec<Param> = ps.into_iter().map(snapshot).collect();
-        check_update(ctx, fam, &mut params, lr, &format!("{} keep_graph={} keep_grads={}", desc, keep_graph, keep_grads));
+        let d2 = format!("{} keep_graph={} keep_grads={}", desc, keep_graph, keep_grads);
+        if !check_update(ctx, fam, &mut params, lr, &d2) {
+            return;
+        }
+        // the replacement is a new array: a pass over the graph recorded BEFORE the update (still alive) feeds the old
+        // arrays, and a pass over a graph built on the new arrays leaves the older handles alone
+        let stale_pass = graph_kept && r.chance(2, 3);
+        let fresh_pass = !stale_pass && r.chance(1, 2);
+        let olds: Vec<(Array, bool)> = params.iter().map(|p| (p.old_clone.clone(), p.old_clone.gradient().is_some())).collect();
+        let res = guard(|| {
+            if stale_pass {
+                kept.last().unwrap().backward(None);
+            }
+            if fresh_pass {
+                let mut acc: Option<Array> = None;
+                for p in params.iter() {
+                    let t = &x * &p.a;
+                    acc = Some(match acc {
+                        None => t,
+                        Some(a) => &a + &t,
+                    });
+                }
+                acc.unwrap().backward(None);
+            }
+        });
+        if let Err(m) = res {
+            ctx.violation(&format!("C13|{}|pass-panic:{}", fam, panic_class(&m)), format!("a pass after the update panicked: {}\n{}", m, d2));
+            return;
+        }
+        if stale_pass {
+            ctx.count("stale_graph_passes_after_update", 1);
+            for (i, p) in params.iter().enumerate() {
+                if p.grad.is_some() && p.a.gradient().is_some() {
+                    ctx.violation(&format!("C13|{}|stale-graph-feeds-new-parameter", fam), format!("parameter {} was replaced by the update, then the graph recorded before the update was differentiated again: the NEW array received a gradient\n{}", i, d2));
+                    return;
+                }
+            }
+            // second update right away: nothing holds a gradient, nothing may move
+            let arrays: Vec<Array> = params.drain(..).map(|p| p.a).collect();
+            params = arrays.into_iter().map(snapshot).collect();
+            check_update(ctx, fam, &mut params, lr, &format!("{} second update after a pass over the stale graph", d2));
+        }
+        if fresh_pass {
+            ctx.count("fresh_graph_passes_after_update", 1);
+            for (i, ((o, had), p)) in olds.iter().zip(params.iter()).enumerate() {
+                if p.grad.is_some() && !*had && o.gradient().is_some() {
+                    ctx.violation(&format!("C13|{}|old-handle-fed-by-new-graph", fam), format!("a clone of parameter {} taken before the update received a gradient from a pass over a graph built on the NEW arrays only\n{}", i, d2));
+                    return;
+                }
+            }
+        }
         drop(kept);
     }
 }
